@@ -236,7 +236,7 @@ pub fn run(ctx: &Ctx) -> i32 {
         let (profs, _) = profiles(tree, false, 200);
         for prof in &profs {
             sources.push(Source::Grid(prof.clone()));
-            for h in [0.3, 0.6] {
+            for h in [0.25, 0.5, 0.6] {
                 sources.push(Source::Truncated(prof.clone(), h));
             }
         }
@@ -260,7 +260,7 @@ pub fn run(ctx: &Ctx) -> i32 {
         }
     });
     ctx.finish(
-        "every valid skeleton within the bounds and the curated families x {every grid profile, each truncated at 0.3 and 0.6, solver output of Full/Sampled/External for T in {0,1,5}}; for each, every prefix of the outer iterator and of every inner iterator (transitions = number of (iterator state) points at which len/size_hint were compared with the items that followed); non-trivial = the game has at least one infoset",
+        "every valid skeleton within the bounds and the curated families x {every grid profile, each truncated at 0.25, 0.5 (values the grid really has) and 0.6, solver output of Full/Sampled/External for T in {0,1,5}}; for each, every prefix of the outer iterator and of every inner iterator (transitions = number of (iterator state) points at which len/size_hint were compared with the items that followed); non-trivial = the game has at least one infoset",
         true,
         "E-INPUT + operation-sequence exploration of the two iterators: Strategies::as_named of every enumerated strategy, compared with the tree's own infoset list and the dense probabilities; round trip through from_named / from_named_eq",
     )
